@@ -337,6 +337,73 @@ Proof. exact sign_roots_by_account_type_complete. Qed.
 Print Assumptions C06_batch_complete.
 
 (* ------------------------------------------------------------------------------------------ *)
+(* Sessions: any number of requests made to ONE service instance, in any order.                 *)
+(* [run_session H sig zero_sig E Sv qs] handles the requests [qs] one after another on the      *)
+(* service [Sv], each with the domain provider as it answers during that request.               *)
+
+(* What a request returns does not depend on what the same service instance was asked before
+   it: the k-th outcome of a session is the outcome of the k-th request made alone to a service
+   fresh from New -- for any requests before it (of the same or other kinds, for later or earlier
+   epochs, on either side of any fork, answered or failed), any accounts, any provider. *)
+Theorem C06_session_request_alone :
+  forall (H : N -> N -> N) (sig : Type) (zero_sig : sig) (E : env sig) (Sv : service)
+         (qs : list (provider * request)) (k : nat) (P : provider) (q : request),
+    nth_error qs k = Some (P, q) ->
+    nth_error (run_session H sig zero_sig E Sv qs) k = Some (run H sig zero_sig P E Sv q).
+Proof. exact run_session_nth. Qed.
+Print Assumptions C06_session_request_alone.
+
+(* The property for every request of every session: whenever the k-th request of a session is
+   answered with signatures (the node being a node of chain c while that request is handled;
+   the other requests of the session may be anything, made while the node answers anything),
+   there is one signature per (account, message) of THAT request, in its order, the i-th being
+   the i-th account's over the specification's signing root of the i-th message: the domain type of
+   that duty and the fork in force at THAT duty's epoch, whichever epochs the same service signed
+   for before. *)
+Theorem C06_session_spec :
+  forall (H : N -> N -> N) (sig : Type) (zero_sig : sig) (sign : N -> N -> sig) (c : chain)
+         (qs : list (provider * request)) (k : nat) (q : request) (sigs : list sig),
+    nth_error qs k = Some (spec_provider H c, q) ->
+    req_wf c q ->
+    nth_error (run_session H sig zero_sig (honest H sig sign) (spec_service c) qs) k = Some (Ok sigs) ->
+    sigs = map (fun it => expected sig zero_sig sign (fst it) (spec_signing_root H c (snd it))) (request_items q).
+Proof.
+  intros H sig zero_sig sign c qs k q sigs Hk Hwf Hout.
+  rewrite (run_session_nth H sig zero_sig (honest H sig sign) (spec_service c) qs k _ q Hk) in Hout.
+  injection Hout as Hrun. exact (run_spec H sig zero_sig sign c q sigs Hwf Hrun).
+Qed.
+Print Assumptions C06_session_spec.
+
+(* The same, position by position: i-th signature of the k-th request of the session. *)
+Theorem C06_session_batch_order :
+  forall (H : N -> N -> N) (sig : Type) (zero_sig : sig) (sign : N -> N -> sig) (c : chain)
+         (qs : list (provider * request)) (k : nat) (q : request) (sigs : list sig) (i : nat) (a : account) (m : message),
+    nth_error qs k = Some (spec_provider H c, q) ->
+    req_wf c q ->
+    nth_error (run_session H sig zero_sig (honest H sig sign) (spec_service c) qs) k = Some (Ok sigs) ->
+    nth_error (request_items q) i = Some (a, m) ->
+    nth_error sigs i = Some (expected sig zero_sig sign a (spec_signing_root H c m)).
+Proof.
+  intros H sig zero_sig sign c qs k q sigs i a m Hk Hwf Hout Hi.
+  rewrite (run_session_nth H sig zero_sig (honest H sig sign) (spec_service c) qs k _ q Hk) in Hout.
+  injection Hout as Hrun. exact (run_spec_nth H sig zero_sig sign c q sigs i a m Hwf Hrun Hi).
+Qed.
+Print Assumptions C06_session_batch_order.
+
+(* A session gives one outcome per request, and a session continued is the session so far
+   followed by the continuation made alone. *)
+Theorem C06_session_outcomes :
+  forall (H : N -> N -> N) (sig : Type) (zero_sig : sig) (E : env sig) (Sv : service)
+         (qs1 qs2 : list (provider * request)),
+    length (run_session H sig zero_sig E Sv (qs1 ++ qs2)) = (length qs1 + length qs2)%nat /\
+    run_session H sig zero_sig E Sv (qs1 ++ qs2)
+    = run_session H sig zero_sig E Sv qs1 ++ run_session H sig zero_sig E Sv qs2.
+Proof.
+  intros. split; [rewrite run_session_length; apply app_length | apply run_session_app].
+Qed.
+Print Assumptions C06_session_outcomes.
+
+(* ------------------------------------------------------------------------------------------ *)
 (* Non-vacuity: a concrete chain with a fork, a toy hash, and requests that succeed.            *)
 
 Definition toy_H (a b : N) : N := (a * 31 + b * 17 + 7) mod 2 ^ 256.
@@ -384,3 +451,23 @@ Example C06_every_kind_example :
        [ContributionAndProof 7 (Contribution 87 5 1 255 77) 88; ContributionAndProof 8 (Contribution 86 5 2 255 77) 99];
      ReqRegistration (wallet_acc 1) (Some (Registration 1 2 3 4))] = true.
 Proof. vm_compute. reflexivity. Qed.
+
+(* a session on one service: a slot selection proof for the first slot after the second fork, one
+   for the last slot before it, an aggregate in between made while the node is down, and one for
+   the epoch before the first fork: each answered request is signed with the fork domain of ITS
+   epoch (three different fork versions), the unanswered one is an error *)
+Example C06_session_example :
+  let P := spec_provider toy_H toy_chain in
+  let down := {| p_domain := fun _ _ => None; p_genesis := fun _ => None |} in
+  let E := honest toy_H (N * N) toy_sign in
+  let qs := [(P, ReqSlotSelections [wallet_acc 1] 88);
+             (P, ReqSlotSelections [wallet_acc 1] 87);
+             (down, ReqAggregateAndProof (wallet_acc 1) 87 1234);
+             (P, ReqSlotSelections [wallet_acc 1] 79)] in
+  run_session toy_H (N * N) (0, 0) E (spec_service toy_chain) qs
+  = [Ok [(1, spec_signing_root toy_H toy_chain (MSlotSelection 88))];
+     Ok [(1, spec_signing_root toy_H toy_chain (MSlotSelection 87))];
+     Err;
+     Ok [(1, spec_signing_root toy_H toy_chain (MSlotSelection 79))]]
+  /\ version_at toy_chain (88 / 8) = 3 /\ version_at toy_chain (87 / 8) = 2 /\ version_at toy_chain (79 / 8) = 1.
+Proof. vm_compute. repeat split; reflexivity. Qed.
